@@ -77,6 +77,10 @@ CLAIMED = {
    text="Deductive proof, at every conversion of a non-constant string to html/template.HTML in cmd/keymasterd (the only way around the template engine's contextual escaping; the sites are found by a sweep over go/ssa, so a new one is a new obligation), that the produced markup is one of two fixed elements whose only variable part is an attribute value free of double quotes and angle brackets (regular-expression membership decided by the string solvers; Go regexps are translated exactly); conversions to the other bypass types (JS, JSStr, HTMLAttr, CSS, URL, Srcset) are forbidden outright.",
    note=TRUST + "html/template's auto-escaping of ordinary fields, HTMLEscapeString and the base64 alphabet are trusted contracts; pages written without the template engine (fmt.Fprintf of plain-text/JSON bodies) are not HTML and are not covered.",
    design="7 (C18)"),
+ "C20": dict(
+   text="Deductive proof with a ghost 'signed but not yet published' flag: on every path of the four signing functions of cmd/keymasterd (user X.509, user SSH, role-requesting, cloud-role) a 200 response header is written, or the DER returned, only after the certificate signed in this request was handed to the event notifier, and the PEM body is encoded from the very DER that was published; call-graph rules pin every x509.CreateCertificate / ssh SignCert call in /repo to those functions (or named start-up code); the six publish entry points and everything they call in /repo contain no blocking channel operation (structural sweep) and use the subscriber table only under its mutex; the monitoring daemon's event loop saves a snapshot only if no event was recorded since it was taken (loop invariant over the select loop with a ghost dirty flag). BOUNDED stand-in, reported apart and never counted as proved: save -> load of the per-user history keeps order and drops only expired entries, run on the real functions for every history of <= 5 events (<= 4 in the quick tier).",
+   note=TRUST + "Delivery to a subscriber (TCP, JSON encoding) and the SSH wire encoding returned to the requester are not under contract; publication of web/service-provider login events is not claimed. The doubly linked history lists have no reachability predicate in the contract language: that clause is bounded, not proved.",
+   design="7 (C20)"),
 }
 
 NOT_YET = "check not built yet in this snapshot of /verif (work in progress; see DESIGN.md section 7 for the planned contracts)"
